@@ -84,6 +84,11 @@ def case(ctx, i):
         r.evaluations += 1
         mk = norm(v.type.key())
         dk = norm(doc.type_key(nodes[0].attrs["type-id"]))
+        if mk != dk and cfg["family"] == "gcc" and array_of_array_typedef(v.type):
+            # 'typedef T t[2]; t v[1];' - gcc's DWARF describes v as ONE array type with two subranges, the typedef is
+            # gone (clang keeps it): compiler-defined, not judged
+            r.count("not_judged:gcc-flattens-array-of-array-typedef")
+            continue
         if mk != dk and isinstance(v.type, progen.Qualified) and isinstance(progen.resolve(v.type), progen.Array):
             # a cv-qualified typedef-of-array: C type identity pushes the qualifier to the elements.
             if cfg["family"] == "gcc":
@@ -110,6 +115,19 @@ def case(ctx, i):
     r.sample = {"config": what, "compared": r.evaluations,
                 "example": {"name": fs[0].name, "declared": norm(fs[0].ftype.key())} if fs else None}
     return r
+
+
+def array_of_array_typedef(t):
+    while isinstance(t, progen.Qualified):
+        t = t.to
+    while isinstance(t, progen.Array):
+        e = t.elem
+        while isinstance(e, progen.Qualified):
+            e = e.to
+        if isinstance(e, progen.Typedef) and isinstance(progen.resolve(e), progen.Array):
+            return True
+        t = e
+    return False
 
 
 def diff_feature(mk, dk):
